@@ -437,6 +437,8 @@ def create_for_single_files_subcommand(
     num_failed_verifications = 0
 
     hash_format_list = sorted(hash_formats)
+    # a file that is given more than once (or also as part of a given folder) is only recorded once
+    sealed_file_paths = set()
 
     for path in single_file:
         if not os.path.isabs(path):
@@ -447,6 +449,9 @@ def create_for_single_files_subcommand(
                     file_path = os.path.join(folder_path, item_name)
                     if is_dir:
                         continue
+                    if os.path.normpath(file_path) in sealed_file_paths:
+                        continue
+                    sealed_file_paths.add(os.path.normpath(file_path))
                     seal_result = seal_file_path(existing_history, file_path, hash_format_list, session)
                     # Determine success based on the first format in the list
                     # TODO: Consider checking all results.  Would it be practical to do so?
@@ -455,6 +460,9 @@ def create_for_single_files_subcommand(
                     if not success:
                         num_failed_verifications += 1
         else:
+            if os.path.normpath(path) in sealed_file_paths:
+                continue
+            sealed_file_paths.add(os.path.normpath(path))
             seal_result = seal_file_path(existing_history, path, hash_format_list, session)
             success = seal_result[hash_format_list[0]].success
             if not success:
